@@ -33,7 +33,14 @@ func MakeFromRequest(r *http.Request) CacheKey {
 	}
 	normHost := strings.ToLower(r.Host)
 	normPath := path.Clean(r.URL.Path)
-	stringKey := fmt.Sprintf("%s|%s|%s|%s|%s", scheme, r.Method, normHost, normPath, r.URL.RawQuery)
+	if p := r.URL.Path; (strings.HasSuffix(p, "/") || strings.HasSuffix(p, "/.") || strings.HasSuffix(p, "/..")) && normPath != "/" {
+		// path.Clean drops a trailing slash, but /dir/ and /dir are different resources.
+		// A final dot-segment leaves a trailing slash behind as well (RFC 3986 section 5.2.4).
+		normPath += "/"
+	}
+	// The components are quoted so that a separator inside one of them cannot be confused with
+	// the boundary between two of them (e.g. path "/a|b" + query "c" versus path "/a" + query "b|c")
+	stringKey := fmt.Sprintf("%q|%q|%q|%q|%q", scheme, r.Method, normHost, normPath, r.URL.RawQuery)
 	slog.Debug("Creating cache key", "key", stringKey)
 	return FromString(stringKey)
 }
